@@ -8,7 +8,7 @@ EST = OPS + 'fm_estimated_configurations_number.py'
 
 @contract(EST, 'count_configurations_rec', prop='C13')
 class CountConfigurationsRec:
-    lemmas = ('lemma_leaf_iff_no_relation',)
+    lemmas = ('lemma_children_ge_relations', 'lemma_leaf_iff_no_relation')
 
     def pre(feature):
         return wf()
